@@ -278,7 +278,7 @@ class Monitor:
         else:
             self.ref[key] = (sig, list(history))
         # --- file holds what was returned
-        if status == "ok" and call is not None:
+        if status == "ok" and call is not None and not mutated:     # (after a detected mutation the world was restored under the result)
             for f, kind, pick, dec in call.files:
                 self.files_checked += 1
                 try:
@@ -388,6 +388,17 @@ def search(run, broken):
     wrejected = [n for n, v in verdicts.items() if v["ok"] and not v["wok"]]
     file_fail = {k.split(":", 2)[2] for b in broken for k, _, _ in b.get("failing", []) if k.startswith("C18:file-differs:")}
     missing = [n for n in rejected if n not in mutated] + [n for n in wrejected if n not in file_fail]
+    # a rejected routine that INLINES a routine with a concrete failing input is explained by that input
+    try:
+        with open(os.path.join(common.LEAN, "Pms", "Gen", "Purity.json")) as f:
+            sidevars = {n: r.get("vars", []) for n, r in json.load(f).get("routines", {}).items()}
+    except OSError:
+        sidevars = {}
+    explained = set(mutated) | file_fail
+
+    def inlines_failing(n):
+        return any(any(v.startswith(m.rsplit(".", 1)[1] + "#") for v in sidevars.get(n, [])) for m in explained)
+    missing = [n for n in missing if not inlines_failing(n)]
     if missing:
         # directed search: more worlds / histories for the routines the analysis rejects but the sweep did not catch
         side = {}
